@@ -14,7 +14,7 @@ from nutree import Tree
 from nutree.typed_tree import TypedTree
 
 OBJ = [12, 13, 14, 15, 17, 18, 20, 24, 26]   # value-equality objects: ints, tuples, frozen dataclass, EqObj
-STRS = [0, 1, 2, 6, 7, 11]                   # strings incl. unicode
+STRS = [0, 30, 1, 2, 6, 7, 11]                 # strings incl. unicode
 
 
 def flavour(o):
@@ -141,7 +141,9 @@ def random_label_spec(rng, n, labels, typed, explicit=0.2, clone_rate=0.4):
     for lab in labels:
         if rng.random() < explicit:
             # one explicit id per data object (the same id for different data objects is a user error)
-            ids[lab] = rng.choice([2000 + len(ids), "id-%s" % lab, "ü-%s" % lab] + ([0] if 0 not in ids.values() else []) + ([""] if "" not in ids.values() else []))
+            # 0 is also hash(0) == hash(""): never give it to another data object than those
+            zero_ok = 0 not in ids.values() and not any(l in (29, 30) and l != lab for l in labels)
+            ids[lab] = rng.choice([2000 + len(ids), "id-%s" % lab, "ü-%s" % lab] + ([0] if zero_ok else []) + ([""] if "" not in ids.values() else []))
 
     def deco(s):
         out = []
